@@ -58,12 +58,27 @@ func (f *vFlight) inflightBytes() int {
 
 // C03.L3: a SACK is applied all-or-nothing. k chunks in flight, cumulative ack, a_rwnd
 // and up to two gap blocks fully symbolic.
-func vh_C03_L3_sack_all_or_nothing() {
-	k := 1 + vPick(3)
+// vSackShape restricts vSackAllOrNothing for the wrappers of other properties:
+// 0 = all shapes, 1 = cumulative ack only, 2 = two gap blocks only.
+func vh_C03_L3_sack_all_or_nothing() { vSackAllOrNothing(0) }
+
+func vSackAllOrNothing(shape int) {
+	var ngap int // 0, 1 or 2 gap blocks
+	switch shape {
+	case 1:
+		ngap = 0
+	case 2:
+		ngap = 2
+	default:
+		ngap = vPick(3)
+	}
+	k := 3 // two gap blocks are only interesting with enough chunks in flight
+	if ngap < 2 {
+		k = 1 + vPick(3)
+	}
 	f := vInFlight(k, false)
 	a := f.a
 	sack := &chunkSelectiveAck{cumulativeTSNAck: nondetU32(), advertisedReceiverWindowCredit: nondetU32()}
-	ngap := vPick(3) // 0, 1 or 2 gap blocks
 	hasGap := ngap >= 1
 	var gs, ge, gs2, ge2 uint16
 	if ngap >= 1 {
@@ -223,7 +238,8 @@ func vh_C15_L1_write_accounting() {
 	vassert(err == nil, "open stream")
 	s.SetReliabilityParams(vPick(2) == 1, ReliabilityTypeReliable, 0)
 	n1 := 1 + vPick(3)
-	n, werr := s.WriteSCTP(nondetBytes(n1), PayloadTypeWebRTCBinary)
+	ppi1 := []PayloadProtocolIdentifier{PayloadTypeWebRTCBinary, PayloadTypeWebRTCDCEP}[vPick(2)]
+	n, werr := s.WriteSCTP(nondetBytes(n1), ppi1)
 	vassert(werr == nil && n == n1, "write accepted")
 	vassert(s.BufferedAmount() == uint64(n1) && a.BufferedAmount() == n1, "buffered amount grows by the length of an accepted write")
 	ssn, omid, umid := s.sequenceNumber, s.nextOrderedMID, s.nextUnorderedMID
@@ -256,5 +272,38 @@ func vh_C15_L3_release_after_close() {
 	vassert(vDeliver(a, &chunkSelectiveAck{cumulativeTSNAck: f.base + 2, advertisedReceiverWindowCredit: 1 << 20}) == nil, "SACK ok")
 	vassert(f.s.BufferedAmount() == 0, "acknowledged bytes are released although the stream is closing")
 	vassert(calls == 1, "the low-threshold callback fires for the crossing")
+	vcover("end")
+}
+
+// C10.L2: rwnd is recomputed only from SACKs that are processed: max(0, a_rwnd - outstanding);
+// an old (reordered) SACK does not touch it (cumulative-ack-only shape of vSackAllOrNothing).
+func vh_C10_L2_rwnd_from_sack() { vSackAllOrNothing(1) }
+
+// C15.L3d: a SACK rejected for an impossible gap block releases nothing (two-block shape).
+func vh_C15_L3_rejected_sack_releases_nothing() { vSackAllOrNothing(2) }
+
+// C15.L4: release arithmetic and threshold crossing for arbitrary amounts, including a
+// release larger than the amount (stream identifier reuse): the amount never underflows
+// and the callback fires exactly for a downward crossing.
+func vh_C15_L4_release_and_threshold() {
+	a, _ := vNewAssoc()
+	s, _ := a.OpenStream(1, PayloadTypeWebRTCBinary)
+	from, low, rel := uint64(nondetU32()), uint64(nondetU32()), nondetU32()
+	vassume(rel <= 1<<30)
+	s.bufferedAmount = from
+	s.SetBufferedAmountLowThreshold(low)
+	calls := 0
+	s.OnBufferedAmountLow(func() { calls++ })
+	s.onBufferReleased(int(rel))
+	to := uint64(0)
+	if from >= uint64(rel) {
+		to = from - uint64(rel)
+	}
+	vassert(s.BufferedAmount() == to, "the amount shrinks by the bytes released and never underflows")
+	want := 0
+	if rel > 0 && from > low && to <= low {
+		want = 1
+	}
+	vassert(calls == want, "the low-threshold callback fires exactly for a downward crossing of the threshold")
 	vcover("end")
 }
